@@ -222,7 +222,7 @@ class HarnessHang(Exception):
         self.lines = read_lines(tr) if os.path.exists(tr) else []
 
     def program(self):
-        starts = [i for i, l in enumerate(self.lines) if l.startswith("new")]
+        starts = [i for i, l in enumerate(self.lines) if l.startswith("new") or l.startswith("cnew") or l.startswith("stress") or l.startswith("srv ")]
         a = starts[-1] if starts else 0
         return self.lines[a:]
 
